@@ -6,6 +6,8 @@ import (
 	"fmt"
 	"io"
 	"log"
+	"os"
+	"reflect"
 	"sort"
 	"time"
 
@@ -36,7 +38,7 @@ type pageRec struct {
 // MainC09 is the entry point of the C09 check.
 func MainC09() {
 	ev.Main("C09", "exploration",
-		"worlds of 5-80 permanodes whose creation/modification times are drawn from a small set (massive ties), incl. pre-1970 and sub-second instants; for each permanode constraint x continuable sort {-created,-mod} x limit {1,2,3,5,n-1,n,n+1}: continuation tokens are followed until exhaustion (bounded by ceil(n/limit)+2 pages) and the concatenation must equal the unlimited ordered result as a sequence; for every pivot x limit x sort {-created,-mod,blobref}: an around-query is empty iff the pivot is not in the full result, else a contiguous window of it containing the pivot; distinct = (world, constraint, sort, limit[, pivot], mode); non-trivial = the full result has more entries than the limit",
+		"worlds of 5-80 permanodes whose creation/modification times are drawn from a small set (massive ties), incl. pre-1970 and sub-second instants; for each permanode constraint x continuable sort {-created,-mod, unspecified = the default} x limit {1,2,3,5,n-1,n,n+1}: continuation tokens are followed until exhaustion (bounded by ceil(n/limit)+2 pages) and the concatenation must equal the unlimited ordered result as a sequence; sorts without continuation {blobref, created}: no token and a correct first page, or an exact chain; for every pivot x limit {1,2,3,4,7,n,n+1} x sort {-created,-mod,unspecified,blobref}: an around-query is empty iff the pivot is not in the full result, else a contiguous window of it containing the pivot; families: fresh request per call / ONE constraint value reused across scrolls and around queries / the query as an expression / the world delivered in 5 stages to one live corpus (claims before the file they name, stages without claims) with paging after every stage; every request is compared before/after Handler.Query; distinct = (family, world, constraint, sort, limit[, pivot], mode[@stage]); non-trivial = the full result has more entries than the limit",
 		runC09)
 }
 
@@ -99,12 +101,53 @@ func runC09(r *ev.Run) {
 				checkPaging(r, w, wid, c, m)
 			}
 		}
+		// the query given as an expression (its constraint, sort and limit come out of the parser)
+		for _, expr := range []string{"tag:" + []string{"a", "b", "Foo", "42"}[wi%4]} {
+			ej, _ := json.Marshal(map[string]string{"expression": expr})
+			(&pager{r: r, w: w, wid: wid, cj: ej, m: modes[wi%2], expr: expr, fam: "expression/", light: true}).checkAll(false)
+			r.Note("paging", "expression-query")
+		}
+		// the same world delivered in stages to one live corpus, paging interleaved with indexing
+		if wi%2 == 0 {
+			runStagedC09(r, w, wid, label)
+		}
 		r.Count("worlds", 1)
 	}
 	r.Require("time_features", "tied", "distinct", "pre-1970", "subsecond")
-	r.Require("sorts", "-created", "-mod", "blobref")
-	r.Require("paging", "multi-page", "exact-multiple", "single-page", "limit-beyond-end")
-	r.Require("around", "pivot-matches", "pivot-does-not-match", "window-cut-both-sides")
+	r.Require("sorts", "-created", "-mod", "blobref", "unspecified", "created")
+	r.Require("paging", "multi-page", "exact-multiple", "single-page", "limit-beyond-end", "default-sort", "constraint-value-reused-across-scrolls", "expression-query", "no-token-for-blobref")
+	r.Require("around", "pivot-matches", "pivot-does-not-match", "window-cut-both-sides", "limit-covers-everything")
+	r.Require("staged", "stage-without-claims", "late-file-changes-created-time", "content-claim-before-file")
+}
+
+// runStagedC09: paging and around queries after every stage of a world that is delivered in
+// stages to one live corpus (see staged.go): whatever order the corpus cached for the previous
+// stage's queries has to follow the arrivals.
+func runStagedC09(r *ev.Run, w *sworld, wid, label string) {
+	st, err := newStagedIndex(r.Rand("staged-plan/"+label), w, nStagesC08)
+	if err != nil {
+		r.Inconclusive("cannot create the staged index: " + err.Error())
+		return
+	}
+	cons := []*search.Constraint{
+		{CamliType: schema.TypePermanode},
+		{Permanode: &search.PermanodeConstraint{SkipHidden: true}},
+	}
+	for si := 0; si < nStagesC08; si++ {
+		wk, _, err := st.advance(r)
+		if err != nil {
+			r.Inconclusive(wid + " " + err.Error())
+			return
+		}
+		for ci, c := range cons {
+			if (ci+si)%2 == 1 && !st.plan.filesOnly[si] {
+				continue
+			}
+			cj, _ := json.Marshal(c)
+			(&pager{r: r, w: wk, wid: wid, c: c, cj: cj, m: st.m, fam: "staged/", light: true}).checkAll(false)
+		}
+	}
+	st.noteEvidence(r)
 }
 
 func (w *sworld) timesOf(refs []blob.Ref, st search.SortType) map[string]string {
@@ -121,9 +164,20 @@ func (w *sworld) timesOf(refs []blob.Ref, st search.SortType) map[string]string 
 	return out
 }
 
+// lastMutation is set by runQuery: the first exported field of the request that differs after the
+// call from what the harness passed in ("" = unchanged, "?" = not comparable).
+var lastMutation string
+
 func runQuery(m mode, q *search.SearchQuery) (refs []blob.Ref, cont string, err error, pan any) {
 	qmu.Lock()
 	defer qmu.Unlock()
+	before, comparable := snapshotQuery(q)
+	defer func() {
+		lastMutation = "?"
+		if comparable {
+			lastMutation = exportedDiff(reflect.ValueOf(before), reflect.ValueOf(q), "query")
+		}
+	}()
 	func() {
 		defer func() { pan = recover() }()
 		var res *search.SearchResult
@@ -145,69 +199,186 @@ func cloneC(c *search.Constraint) *search.Constraint {
 	return &cc
 }
 
+// pager carries what one family of paging/around queries has in common.
+type pager struct {
+	r   *ev.Run
+	w   *sworld
+	wid string
+	c   *search.Constraint
+	cj  []byte
+	m   mode
+	// shared, if non-nil, is the ONE constraint value every query of the family is built around
+	// (an in-process caller paging with one query value); otherwise every query gets a fresh copy.
+	shared *search.Constraint
+	// expr, if non-empty, is sent as SearchQuery.Expression instead of the constraint
+	expr string
+	// fam prefixes the signatures of a family: "", "reused-constraint/", "expression/", "staged/"
+	fam string
+	// light: fewer limits and pivots (staged and expression families)
+	light bool
+}
+
+func (p *pager) query(st search.SortType, lim int, cont string, around blob.Ref) *search.SearchQuery {
+	q := &search.SearchQuery{Sort: st, Limit: lim, Continue: cont, Around: around}
+	switch {
+	case p.expr != "":
+		q.Expression = p.expr
+	case p.shared != nil:
+		q.Constraint = p.shared
+	default:
+		q.Constraint = cloneC(p.c)
+	}
+	return q
+}
+
+// run executes q; a request that comes back changed is reported (once per query).
+func (p *pager) run(q *search.SearchQuery, rec *pageRec) (refs []blob.Ref, cont string, err error, pan any) {
+	refs, cont, err, pan = runQuery(p.m, q)
+	p.r.Eval(1)
+	switch lastMutation {
+	case "":
+		p.r.Count("requests_compared_before_after", 1)
+	case "?":
+		p.r.Count("requests_not_comparable", 1)
+	default:
+		p.r.Violation(p.fam+"request-mutated/"+lastMutation, fmt.Sprintf("%s [%s]: Handler.Query changed the caller's request: %s differs after the call (constraint %s, sort %s, limit %d, continue %q); the next query built around the same value asks something else", p.wid, p.m.name, lastMutation, p.cj, sortNames[q.Sort], q.Limit, q.Continue), rec)
+	}
+	return
+}
+
+func effSort(st search.SortType) search.SortType {
+	if st == search.UnspecifiedSort {
+		return search.CreatedDesc // documented default of permanode-only queries (all C09 queries are)
+	}
+	return st
+}
+
 func checkPaging(r *ev.Run, w *sworld, wid string, c *search.Constraint, m mode) {
 	cj, _ := json.Marshal(c)
-	for _, st := range []search.SortType{search.CreatedDesc, search.LastModifiedDesc, search.BlobRefAsc} {
-		r.Note("sorts", sortNames[st])
-		full, _, err, pan := runQuery(m, &search.SearchQuery{Constraint: cloneC(c), Sort: st, Limit: -1})
-		rec := pageRec{CaseID: wid, Constraint: cj, Sort: sortNames[st], Limit: -1, Mode: m.name, Full: refStrings(full)}
-		if pan != nil || err != nil {
-			r.Violation("full-query-fails/"+sortNames[st], fmt.Sprintf("%s [%s]: unlimited query failed: %v %v (constraint %s)", wid, m.name, err, pan, cj), rec)
+	(&pager{r: r, w: w, wid: wid, c: c, cj: cj, m: m}).checkAll(true)
+}
+
+// checkAll runs every paging and around judgement of one (constraint, mode); with families also
+// the reused-constraint family.
+func (p *pager) checkAll(families bool) {
+	r, w, wid, m, cj := p.r, p.w, p.wid, p.m, p.cj
+	sorts := []search.SortType{search.CreatedDesc, search.LastModifiedDesc, search.BlobRefAsc, search.UnspecifiedSort, search.CreatedAsc, search.Unsorted}
+	for _, st := range sorts {
+		eff := effSort(st)
+		if p.light && (st == search.CreatedAsc || st == search.BlobRefAsc || st == search.Unsorted) {
 			continue
 		}
-		r.Eval(1)
+		r.Note("sorts", sortNames[st])
+		rec := pageRec{CaseID: wid, Constraint: cj, Sort: sortNames[st], Limit: -1, Mode: m.name}
+		full, _, err, pan := p.run(p.query(st, -1, "", blob.Ref{}), &rec)
+		rec.Full = refStrings(full)
+		if st == search.CreatedAsc && err != nil && pan == nil {
+			r.Note("paging", "created-asc-refused") // refusals are C08's subject
+			continue
+		}
+		if pan != nil || err != nil {
+			r.Violation(p.fam+"full-query-fails/"+sortNames[st], fmt.Sprintf("%s [%s]: unlimited query failed: %v %v (constraint %s)", wid, m.name, err, pan, cj), rec)
+			continue
+		}
 		// the full list must be totally ordered by (time desc, ref desc) / ref asc
-		if st != search.BlobRefAsc {
+		if eff == search.CreatedDesc || eff == search.LastModifiedDesc {
 			key := w.anyTime
-			if st == search.LastModifiedDesc {
+			if eff == search.LastModifiedDesc {
 				key = w.modtime
 			}
 			for i := 1; i < len(full); i++ {
 				ta, _ := key(full[i-1])
 				tb, _ := key(full[i])
 				if tb.After(ta) || (tb.Equal(ta) && !(full[i].String() < full[i-1].String())) {
-					rec.Times = w.timesOf(full, st)
-					r.Violation("full-order/"+sortNames[st], fmt.Sprintf("%s [%s]: the unlimited %s result is not ordered by (time desc, blobref desc) at position %d (constraint %s)", wid, m.name, sortNames[st], i, cj), rec)
+					rec.Times = w.timesOf(full, eff)
+					r.Violation(p.fam+"full-order/"+sortNames[st], fmt.Sprintf("%s [%s]: the unlimited %s result is not ordered by (time desc, blobref desc) at position %d (constraint %s)", wid, m.name, sortNames[st], i, cj), rec)
 					break
 				}
 			}
 		}
 		n := len(full)
-		if st != search.BlobRefAsc {
-			limits := map[int]bool{1: true, 2: true, 3: true, 5: true, n - 1: true, n: true, n + 1: true}
-			var ls []int
-			for l := range limits {
-				if l >= 1 {
-					ls = append(ls, l)
+		limits := map[int]bool{1: true, 2: true, 3: true, 5: true, n - 1: true, n: true, n + 1: true}
+		if p.light {
+			limits = map[int]bool{1: true, 2: true, n - 1: true}
+		}
+		var ls []int
+		for l := range limits {
+			if l >= 1 {
+				ls = append(ls, l)
+			}
+		}
+		sort.Ints(ls)
+		switch eff {
+		case search.CreatedDesc, search.LastModifiedDesc:
+			if st == search.UnspecifiedSort {
+				r.Note("paging", "default-sort")
+			}
+			for _, lim := range ls {
+				p.checkContinue(st, lim, full)
+			}
+			if families && n >= 2 && p.expr == "" {
+				// one constraint value for: a scroll, a second scroll with another page size, around
+				// queries, a third scroll
+				sp := *p
+				sp.shared, sp.fam = cloneC(p.c), "reused-constraint/"
+				sp.checkContinue(st, 2, full)
+				sp.checkContinue(st, 3, full)
+				sp.checkAround(st, 3, full[0], full)
+				sp.checkAround(st, 2, full[n/2], full)
+				sp.checkContinue(st, 1, full)
+				r.Note("paging", "constraint-value-reused-across-scrolls")
+			}
+		default:
+			// sorts without continuation: no token, or a token chain that is exact all the same
+			for _, lim := range []int{1, 2, n} {
+				if lim >= 1 {
+					p.checkContinue(st, lim, full)
 				}
 			}
-			sort.Ints(ls)
-			for _, lim := range ls {
-				checkContinue(r, w, wid, c, cj, m, st, lim, full)
-			}
+		}
+		if (st == search.CreatedAsc || st == search.Unsorted) && os.Getenv("VERIF_C09_NO_AROUND_CREATED") != "" {
+			continue // debugging aid: around under the sorts that are not in blobref order
 		}
 		// around
 		pivots := append([]blob.Ref(nil), w.pns...)
 		pivots = append(pivots, w.allRefs[0], blob.RefFromString("verif: no such blob"))
-		if len(pivots) > 24 {
+		step := 3
+		if p.light || st == search.UnspecifiedSort {
+			step = 7
+		}
+		if len(pivots) > 24 || step > 3 {
 			// all matching-boundary pivots plus a sample
 			keep := pivots[:0]
-			for i, p := range pivots {
-				if i%3 == 0 || i >= len(pivots)-2 {
-					keep = append(keep, p)
+			for i, pv := range pivots {
+				if i%step == 0 || i >= len(pivots)-2 {
+					keep = append(keep, pv)
 				}
 			}
 			pivots = keep
 		}
-		for _, lim := range []int{1, 2, 3, 4, 7} {
+		alims := []int{1, 2, 3, 4, 7}
+		if p.light {
+			alims = []int{1, 3}
+		}
+		for _, lim := range alims {
 			for _, pv := range pivots {
-				checkAround(r, w, wid, c, cj, m, st, lim, pv, full)
+				p.checkAround(st, lim, pv, full)
+			}
+		}
+		// limit >= the number of results: the window is everything
+		for i, pv := range pivots {
+			if i < 4 && n >= 1 {
+				p.checkAround(st, n, pv, full)
+				p.checkAround(st, n+1, pv, full)
 			}
 		}
 	}
 }
 
-func checkContinue(r *ev.Run, w *sworld, wid string, c *search.Constraint, cj []byte, m mode, st search.SortType, lim int, full []blob.Ref) {
+func (p *pager) checkContinue(st search.SortType, lim int, full []blob.Ref) {
+	r, w, wid, m, cj := p.r, p.w, p.wid, p.m, p.cj
+	eff := effSort(st)
+	continuable := eff == search.CreatedDesc || eff == search.LastModifiedDesc
 	n := len(full)
 	maxPages := (n+lim-1)/lim + 2
 	var got []blob.Ref
@@ -216,18 +387,17 @@ func checkContinue(r *ev.Run, w *sworld, wid string, c *search.Constraint, cj []
 	pages := 0
 	terminated := false
 	for pages < maxPages {
-		refs, next, err, pan := runQuery(m, &search.SearchQuery{Constraint: cloneC(c), Sort: st, Limit: lim, Continue: cont})
+		refs, next, err, pan := p.run(p.query(st, lim, cont, blob.Ref{}), &rec)
 		pages++
-		r.Eval(1)
 		if err != nil || pan != nil {
-			r.Violation("page-query-fails/"+sortNames[st], fmt.Sprintf("%s [%s]: page %d failed: %v %v", wid, m.name, pages, err, pan), rec)
+			r.Violation(p.fam+"page-query-fails/"+sortNames[st], fmt.Sprintf("%s [%s]: page %d failed: %v %v", wid, m.name, pages, err, pan), rec)
 			return
 		}
 		rec.Pages = append(rec.Pages, refStrings(refs))
 		rec.Tokens = append(rec.Tokens, next)
 		got = append(got, refs...)
 		if len(refs) > lim {
-			r.Violation("page-over-limit/"+sortNames[st], fmt.Sprintf("%s [%s]: page %d has %d entries for limit %d", wid, m.name, pages, len(refs), lim), rec)
+			r.Violation(p.fam+"page-over-limit/"+sortNames[st], fmt.Sprintf("%s [%s]: page %d has %d entries for limit %d", wid, m.name, pages, len(refs), lim), rec)
 			return
 		}
 		if next == "" {
@@ -236,7 +406,28 @@ func checkContinue(r *ev.Run, w *sworld, wid string, c *search.Constraint, cj []
 		}
 		cont = next
 	}
-	r.Distinct(fmt.Sprintf("%s/%s/%d/%d/%s", wid, cj, st, lim, m.name))
+	r.Distinct(fmt.Sprintf("%s%s/%s/%d/%d/%s", p.fam, wid, cj, st, lim, m.name))
+	if !continuable {
+		// A sort without continuation: either no token is issued (then page 1 must be a correct
+		// first page), or the chain it starts is judged like any other.
+		if pages == 1 && terminated {
+			r.Note("paging", "no-token-for-"+sortNames[st])
+			if want := min(n, lim); len(got) != want {
+				r.Violation(p.fam+"first-page-size/"+sortNames[st], fmt.Sprintf("%s [%s]: the only page has %d results, want %d (limit %d, %d results in all, constraint %s)", wid, m.name, len(got), want, lim, n, cj), rec)
+				return
+			}
+			if st == search.BlobRefAsc {
+				for i := range got {
+					if got[i] != full[i] {
+						r.Violation(p.fam+"page-order/"+sortNames[st], fmt.Sprintf("%s [%s]: page 1 differs from the unlimited result at position %d (limit %d, constraint %s)", wid, m.name, i, lim, cj), rec)
+						return
+					}
+				}
+			}
+			return
+		}
+		r.Note("paging", "token-for-"+sortNames[st])
+	}
 	switch {
 	case n > lim && n%lim == 0:
 		r.Note("paging", "exact-multiple")
@@ -249,13 +440,13 @@ func checkContinue(r *ev.Run, w *sworld, wid string, c *search.Constraint, cj []
 	default:
 		r.Note("paging", "single-page")
 	}
-	feature := timeFeature(w, full, st)
-	rec.Times = w.timesOf(full, st)
-	if n > lim && lim > 1 && pages > 2 {
+	feature := timeFeature(w, full, eff)
+	rec.Times = w.timesOf(full, eff)
+	if n > lim && lim > 1 && pages > 2 && p.fam == "" {
 		r.Sample(map[string]any{"world": wid, "constraint": json.RawMessage(cj), "sort": sortNames[st], "limit": lim, "mode": m.name, "pages": rec.Pages, "continue_tokens": rec.Tokens, "time_feature": feature})
 	}
 	if !terminated {
-		r.Violation("no-termination/"+sortNames[st]+"/"+feature, fmt.Sprintf("%s [%s]: after %d pages (bound for %d results at limit %d) the server still returns a continue token; %d results collected (constraint %s)", wid, m.name, pages, n, lim, len(got), cj), rec)
+		r.Violation(p.fam+"no-termination/"+sortNames[st]+"/"+feature, fmt.Sprintf("%s [%s]: after %d pages (bound for %d results at limit %d) the server still returns a continue token; %d results collected (constraint %s)", wid, m.name, pages, n, lim, len(got), cj), rec)
 		return
 	}
 	// exactly-once, in order
@@ -270,12 +461,26 @@ func checkContinue(r *ev.Run, w *sworld, wid string, c *search.Constraint, cj []
 				class = "repeat"
 			}
 		}
-		r.Violation(class+"/"+sortNames[st]+"/"+feature, fmt.Sprintf("%s [%s]: following continue tokens at limit %d yields %d results in %d pages, the unlimited result has %d (constraint %s)", wid, m.name, lim, len(got), pages, n, cj), rec)
+		r.Violation(p.fam+class+"/"+sortNames[st]+"/"+feature, fmt.Sprintf("%s [%s]: following continue tokens at limit %d yields %d results in %d pages, the unlimited result has %d (constraint %s)", wid, m.name, lim, len(got), pages, n, cj), rec)
+		return
+	}
+	if st == search.CreatedAsc {
+		// ties are free in this order: exactly-once as a set
+		seen := map[blob.Ref]bool{}
+		for _, b := range got {
+			seen[b] = true
+		}
+		for _, b := range full {
+			if !seen[b] {
+				r.Violation(p.fam+"skip/"+sortNames[st]+"/"+feature, fmt.Sprintf("%s [%s]: %v is never returned while paging at limit %d (constraint %s)", wid, m.name, b, lim, cj), rec)
+				return
+			}
+		}
 		return
 	}
 	for i := range got {
 		if got[i] != full[i] {
-			r.Violation("page-order/"+sortNames[st]+"/"+feature, fmt.Sprintf("%s [%s]: paged result differs from the unlimited one at position %d (limit %d, constraint %s)", wid, m.name, i, lim, cj), rec)
+			r.Violation(p.fam+"page-order/"+sortNames[st]+"/"+feature, fmt.Sprintf("%s [%s]: paged result differs from the unlimited one at position %d (limit %d, constraint %s)", wid, m.name, i, lim, cj), rec)
 			return
 		}
 	}
@@ -308,12 +513,17 @@ func timeFeature(w *sworld, full []blob.Ref, st search.SortType) string {
 	return "distinct"
 }
 
-func checkAround(r *ev.Run, w *sworld, wid string, c *search.Constraint, cj []byte, m mode, st search.SortType, lim int, pivot blob.Ref, full []blob.Ref) {
-	refs, _, err, pan := runQuery(m, &search.SearchQuery{Constraint: cloneC(c), Sort: st, Limit: lim, Around: pivot})
-	r.Eval(1)
-	rec := pageRec{CaseID: wid, Constraint: cj, Sort: sortNames[st], Limit: lim, Mode: m.name, Around: pivot.String(), Full: refStrings(full), Window: refStrings(refs)}
-	if err != nil || pan != nil {
-		r.Violation("around-query-fails/"+sortNames[st], fmt.Sprintf("%s [%s]: around query failed: %v %v (pivot %v, limit %d, constraint %s)", wid, m.name, err, pan, pivot, lim, cj), rec)
+func (p *pager) checkAround(st search.SortType, lim int, pivot blob.Ref, full []blob.Ref) {
+	r, wid, m, cj := p.r, p.wid, p.m, p.cj
+	rec := pageRec{CaseID: wid, Constraint: cj, Sort: sortNames[st], Limit: lim, Mode: m.name, Around: pivot.String(), Full: refStrings(full)}
+	refs, _, err, pan := p.run(p.query(st, lim, "", pivot), &rec)
+	rec.Window = refStrings(refs)
+	if pan != nil {
+		r.Violation(p.fam+"around-query-panics/"+sortNames[st], fmt.Sprintf("%s [%s]: around query panicked: %v (pivot %v, limit %d, %d results in all, constraint %s)", wid, m.name, pan, pivot, lim, len(full), cj), rec)
+		return
+	}
+	if err != nil {
+		r.Violation(p.fam+"around-query-fails/"+sortNames[st], fmt.Sprintf("%s [%s]: around query failed: %v (pivot %v, limit %d, constraint %s)", wid, m.name, err, pivot, lim, cj), rec)
 		return
 	}
 	pos := -1
@@ -322,21 +532,46 @@ func checkAround(r *ev.Run, w *sworld, wid string, c *search.Constraint, cj []by
 			pos = i
 		}
 	}
-	r.Distinct(fmt.Sprintf("%s/%s/%d/%d/%s/%s", wid, cj, st, lim, m.name, pivot))
+	r.Distinct(fmt.Sprintf("%s%s/%s/%d/%d/%s/%s", p.fam, wid, cj, st, lim, m.name, pivot))
 	if pos < 0 {
 		r.Note("around", "pivot-does-not-match")
 		if len(refs) != 0 {
-			r.Violation("around-nonmatching-pivot/"+sortNames[st], fmt.Sprintf("%s [%s]: pivot %v is not in the full result but the around query returned %d results (limit %d, constraint %s)", wid, m.name, pivot, len(refs), lim, cj), rec)
+			r.Violation(p.fam+"around-nonmatching-pivot/"+sortNames[st], fmt.Sprintf("%s [%s]: pivot %v is not in the full result but the around query returned %d results (limit %d, constraint %s)", wid, m.name, pivot, len(refs), lim, cj), rec)
 		}
 		return
 	}
 	r.Note("around", "pivot-matches")
 	if len(refs) == 0 {
-		r.Violation("around-empty/"+sortNames[st], fmt.Sprintf("%s [%s]: pivot %v is at position %d of the full result but the around query is empty (limit %d, constraint %s)", wid, m.name, pivot, pos, lim, cj), rec)
+		r.Violation(p.fam+"around-empty/"+sortNames[st], fmt.Sprintf("%s [%s]: pivot %v is at position %d of the full result but the around query is empty (limit %d, constraint %s)", wid, m.name, pivot, pos, lim, cj), rec)
 		return
 	}
 	if len(refs) > lim {
-		r.Violation("around-over-limit/"+sortNames[st], fmt.Sprintf("%s [%s]: around query returned %d results for limit %d", wid, m.name, len(refs), lim), rec)
+		r.Violation(p.fam+"around-over-limit/"+sortNames[st], fmt.Sprintf("%s [%s]: around query returned %d results for limit %d", wid, m.name, len(refs), lim), rec)
+		return
+	}
+	if st == search.CreatedAsc {
+		// ascending by time with ties in free order: the window is judged by time, not by position
+		p.judgeAroundByTime(rec, lim, pivot, pos, refs, full)
+		return
+	}
+	if st == search.Unsorted {
+		// no order at all: distinct members of the full result, the pivot among them
+		r.Note("around", "unsorted-window")
+		seen := map[blob.Ref]bool{}
+		inFull := map[blob.Ref]bool{}
+		for _, b := range full {
+			inFull[b] = true
+		}
+		for _, b := range refs {
+			if seen[b] || !inFull[b] {
+				r.Violation(p.fam+"around-not-contiguous/unsorted", fmt.Sprintf("%s [%s]: the around window (pivot %v, limit %d) has an entry that is repeated or not in the full result: %v (constraint %s)", wid, m.name, pivot, lim, b, cj), rec)
+				return
+			}
+			seen[b] = true
+		}
+		if !seen[pivot] {
+			r.Violation(p.fam+"around-misses-pivot/unsorted", fmt.Sprintf("%s [%s]: the around window does not contain the pivot %v (limit %d, constraint %s)", wid, m.name, pivot, lim, cj), rec)
+		}
 		return
 	}
 	// contiguous window of full containing the pivot
@@ -357,18 +592,61 @@ func checkAround(r *ev.Run, w *sworld, wid string, c *search.Constraint, cj []by
 		}
 	}
 	if !ok {
-		r.Violation("around-not-contiguous/"+sortNames[st], fmt.Sprintf("%s [%s]: the around window (pivot %v, limit %d) is not a contiguous run of the full ordered result (constraint %s)", wid, m.name, pivot, lim, cj), rec)
+		r.Violation(p.fam+"around-not-contiguous/"+sortNames[st], fmt.Sprintf("%s [%s]: the around window (pivot %v, limit %d) is not a contiguous run of the full ordered result (constraint %s)", wid, m.name, pivot, lim, cj), rec)
 		return
 	}
 	if pos < start || pos >= start+len(refs) {
-		r.Violation("around-misses-pivot/"+sortNames[st], fmt.Sprintf("%s [%s]: the around window [%d,%d) does not contain the pivot at position %d (limit %d, constraint %s)", wid, m.name, start, start+len(refs), pos, lim, cj), rec)
+		r.Violation(p.fam+"around-misses-pivot/"+sortNames[st], fmt.Sprintf("%s [%s]: the around window [%d,%d) does not contain the pivot at position %d (limit %d, constraint %s)", wid, m.name, start, start+len(refs), pos, lim, cj), rec)
 		return
 	}
 	if start > 0 && start+len(refs) < len(full) {
 		r.Note("around", "window-cut-both-sides")
 	}
+	if lim >= len(full) {
+		r.Note("around", "limit-covers-everything")
+	}
 	// a window shorter than the limit is only justified at the ends of the list
 	if len(refs) < lim && len(refs) < len(full) && start > 0 && start+len(refs) < len(full) {
-		r.Violation("around-short-window/"+sortNames[st], fmt.Sprintf("%s [%s]: the around window has %d entries although limit is %d and results exist on both sides (pivot at %d of %d)", wid, m.name, len(refs), lim, pos, len(full)), rec)
+		r.Violation(p.fam+"around-short-window/"+sortNames[st], fmt.Sprintf("%s [%s]: the around window has %d entries although limit is %d and results exist on both sides (pivot at %d of %d)", wid, m.name, len(refs), lim, pos, len(full)), rec)
+	}
+}
+
+// judgeAroundByTime: the around window under a sort whose ties are in free order (created
+// ascending): distinct members of the full result, ascending by time, containing the pivot, and no
+// result that lies strictly between the window's oldest and newest time is left out.
+func (p *pager) judgeAroundByTime(rec pageRec, lim int, pivot blob.Ref, pos int, refs, full []blob.Ref) {
+	r, w, wid, m, cj := p.r, p.w, p.wid, p.m, p.cj
+	r.Note("around", "created-asc-window")
+	inFull := map[blob.Ref]bool{}
+	for _, b := range full {
+		inFull[b] = true
+	}
+	inWin := map[blob.Ref]bool{}
+	var tmin, tmax time.Time
+	for i, b := range refs {
+		t, _ := w.anyTime(b)
+		if !inFull[b] || inWin[b] {
+			r.Violation(p.fam+"around-not-contiguous/created", fmt.Sprintf("%s [%s]: the around window (pivot %v, limit %d) has an entry that is repeated or not in the full result: %v (constraint %s)", wid, m.name, pivot, lim, b, cj), rec)
+			return
+		}
+		inWin[b] = true
+		if i > 0 && t.Before(tmax) {
+			r.Violation(p.fam+"around-not-contiguous/created", fmt.Sprintf("%s [%s]: the around window (pivot %v, limit %d) is not ascending by time at position %d (constraint %s)", wid, m.name, pivot, lim, i, cj), rec)
+			return
+		}
+		if i == 0 {
+			tmin = t
+		}
+		tmax = t
+	}
+	if !inWin[pivot] {
+		r.Violation(p.fam+"around-misses-pivot/created", fmt.Sprintf("%s [%s]: the around window does not contain the pivot %v (limit %d, constraint %s)", wid, m.name, pivot, lim, cj), rec)
+		return
+	}
+	for _, b := range full {
+		if t, _ := w.anyTime(b); !inWin[b] && t.After(tmin) && t.Before(tmax) {
+			r.Violation(p.fam+"around-not-contiguous/created", fmt.Sprintf("%s [%s]: the around window (pivot %v, limit %d) leaves out %v whose time lies strictly inside the window (constraint %s)", wid, m.name, pivot, lim, b, cj), rec)
+			return
+		}
 	}
 }
